@@ -93,7 +93,13 @@ void QXmppIq::parseElementFromChild(const QDomElement &element)
 {
     QXmppElementList extensions;
 
+    // the first <error/> child is parsed into error() by QXmppStanza::parse() and written by
+    // toXml(); keeping it as an extension as well would duplicate it on every parse/serialize
+    const auto errorElement = firstChildElement(element, u"error");
     for (const auto &itemElement : iterChildElements(element)) {
+        if (!errorElement.isNull() && itemElement == errorElement) {
+            continue;
+        }
         extensions.append(QXmppElement(itemElement));
     }
     setExtensions(extensions);
